@@ -83,7 +83,10 @@ static std::string seq(const toks_t& t)
             {
                 Json& a = slot(op.at(1));
                 std::size_t lo = std::strtoull(op.at(2).c_str(), nullptr, 10), hi = std::strtoull(op.at(3).c_str(), nullptr, 10);
-                if (lo > hi || hi > a.size()) res = "range"; else a.erase(a.array_range().begin() + lo, a.array_range().begin() + hi);
+                if (!a.is_object() && !a.is_array()) { a.array_range(); res = "exc"; }      // not a container: array_range() throws
+                else if (lo > hi || hi > a.size()) res = "range";
+                else if (a.is_object()) a.erase(a.object_range().begin() + lo, a.object_range().begin() + hi);
+                else a.erase(a.array_range().begin() + lo, a.array_range().begin() + hi);
             }
             else if (name == "resize") { slot(op.at(1)).resize(std::strtoull(op.at(2).c_str(), nullptr, 10)); }
             else if (name == "resizev") { std::size_t p = 3; Json v = read_val<Json>(op, p); slot(op.at(1)).resize(std::strtoull(op.at(2).c_str(), nullptr, 10), v); }
